@@ -4,6 +4,7 @@ mod fam_asm;
 mod fam_vm;
 mod gen_short;
 mod orc_asm;
+mod orc_vm;
 mod parse;
 
 use std::io::{BufRead, Write};
@@ -21,6 +22,9 @@ fn run_line(line: &str) -> String {
             return r;
         }
         if let Some(r) = fam_vm::run(fam, &mut t) {
+            return r;
+        }
+        if let Some(r) = orc_vm::run(fam, &mut t) {
             return r;
         }
         if let Some(r) = orc_asm::run(fam, &mut t) {
